@@ -125,6 +125,18 @@ func textRoundTripCase(t *mon.T) {
 			t.Fail("roundtrip-mismatch", map[string]interface{}{"encoding": e.name, "d": d.FullString(), "text": clip(e.s), "got": g.FullString()})
 		}
 	}
+	// the encoded bytes belong to the caller: they must survive the encoding of
+	// other (large, small, negative) values before they are parsed
+	for _, other := range []dec.D{
+		{Form: dec.Finite, C: new(big.Int).Add(dec.Pow10(int64(45+r.Intn(60))), big.NewInt(r.Range(1, 1<<40))), E: r.Range(-300, 300)},
+		{Form: dec.Finite, Neg: true, C: big.NewInt(r.Range(1, 1<<40)), E: r.Range(-30, 30)},
+		{Form: dec.Finite, C: new(big.Int).Lsh(big.NewInt(r.Range(1, 1<<40)), uint(100+r.Intn(200))), E: 0},
+	} {
+		oa := br.ToApd(other)
+		_, _ = oa.MarshalText()
+		_ = oa.Append(nil, 'G')
+		_ = oa.Append(make([]byte, 0, 4), 'E')
+	}
 	// also through the other parsers
 	var u apd.Decimal
 	if err := u.UnmarshalText(mt); err != nil || !dec.SameRepr(br.FromApd(&u), d) {
